@@ -268,10 +268,10 @@ pub fn replay(v: &serde_json::Value) -> Option<i32> {
     let ops = j2ops(v);
     for _ in 0..16 {
         if let Err(e) = run_seq(&ops) {
-            println!("replay: FAIL {}", e);
+            crate::outln!("replay: FAIL {}", e);
             return Some(1);
         }
     }
-    println!("replay: PASS");
+    crate::outln!("replay: PASS");
     Some(0)
 }
